@@ -57,7 +57,11 @@ def motion(rng):
     return c + rng.pick([b"z\n", b"z.", b"z-", b"G", b"gz"])
 
 TEXTS = [b"abc", b"x y", b"", b" ", b"foo(bar)", "é中".encode(), b"one\ntwo", b"\tq", b"a\x08b", b"ab\x17c", b"zz\x15y", b"k.", b"1\n2\n3", b"  in",
-         b"\x14t", b"\x04d", b"w\x16\x1bv", b"\n", b"q\n\n"]
+         b"\x14t", b"\x04d", b"w\x16\x1bv", b"\n", b"q\n\n",
+         # ^W / ^H / ^U after trailing blanks, over several words and over multi-byte text
+         b"foo bar \x17X", b"alpha beta  \x17", b"one two\t\x17Z", b"x y \x17\x17q", "é中 ß \x17w".encode(), b"a.b  \x17c", b"ab  \x08\x08\x08c", b"k (q) \x17\x17",
+         # ^K digraphs and ^R registers followed by multi-byte characters, ^Ra / ^R"
+         "\x0b中x".encode(), "\x12éy".encode(), "\x0ba中".encode(), b"\x0be:", b"\x12a", b"\x12\"", "\x12€\x0b€€".encode(), b"\x0b\x0b"]
 
 def reg(rng):
     k = rng.below(8)
@@ -240,6 +244,16 @@ def search_cases(rng, n, maxcmds=8):
                 parts.append(rng.pick([b"1G", b"G", b"", b"3G"]) + d + pat + rng.pick([d, d, b"", d + b"1", d + b"-1"]) + b"\n")
                 if rng.below(2): parts.append(rng.pick([b"n", b"N"]))
             out.append(case(f, b"".join(parts), rows, cols)); continue
+        if i % 20 == 3:
+            # patterns that match the empty string, scanned backward over lines that start with or hold multi-byte characters
+            f = "abc\nété\nxyz\n中文 été\n€\n\nß end\n".encode()
+            pat = rng.pick([b"^", b"\\<", b"x*", b"a?", "é*".encode(), b"$", b"\\>", b"[a-z]*", b"(b|)"])
+            d = rng.pick([b"/", b"?", b"?"])
+            parts = [rng.pick([b"G", b"1G", b"2G$", b"4G", b"5G", b"3G"]), d + pat + b"\n"]
+            for _ in range(1 + rng.below(4)):
+                parts.append(rng.pick([b"", b"", b"2", b"3"]) + rng.pick([b"N", b"N", b"n", d + b"\n"]))
+            parts.append(b"iX\x1b")
+            out.append(case(f, b"".join(parts), rows, cols)); continue
         if i % 20 == 7:
             # matches that touch or overlap: a counted n / N / ^A must equal the same key typed that many times
             f = "ab.abab..ab\néé.éééé.éé x\naaaa aa a\nabab abab\nxx\n".encode()
@@ -386,6 +400,14 @@ def screen_cases(rng, n, maxcmds=9):
         rows, cols = geometry(rng)
         if rng.below(3) == 0: rows = 4 + rng.below(6)
         parts = []
+        if i % 10 == 4:
+            # a change whose motion goes back over line boundaries while the typed text brings new lines:
+            # the rows are inserted while the replacement is being typed
+            f = b"".join(b"line%02d x\n" % k for k in range(1, 21 + rng.below(30)))
+            parts = [rng.pick([b"6G", b"9G", b"3G", b"G", b"12G", b"\x04", b"L", b"M"]),
+                     rng.pick([b"c", b"c", b"2c", b"\"ac"]) + rng.pick([b"k", b"-", b"{", b"1G", b"H", b"2k", b"3k", b"?line\n", b"j", b"}", b"G", b"L", b"+"]),
+                     rng.pick([b"AAA\nBBB", b"\n", b"a\nb\nc\nd", b"x\n\ny", b"one", b"\n\n\n"]) + b"\x1b", rng.pick([b"", b"j", b"k", b"u", b"\x05"])]
+            out.append(case(f, b"".join(parts), rows, cols, screen=1)); continue
         for _ in range(1 + rng.below(maxcmds)):
             k = rng.below(10)
             if k < 4: parts.append(rng.pick(scrolls))
